@@ -41,7 +41,7 @@ inductive DSt where
 def parseOpts : List Sx → Option (List Nat)
   | [] => some []
   | .atom a :: rest =>
-    if a = "layout=start" || a = "layout=end" || a = "layout=account" then parseOpts rest
+    if a = "layout=start" || a = "layout=end" || a = "layout=account" || a = "layout=tbs" then parseOpts rest
     else
       match parseRefuse a, parseOpts rest with
       | some r, some [] => some r
